@@ -105,6 +105,8 @@ type Interp struct {
 
 	totalInstrs int64
 	verbose     int
+	curInstr    ssa.Instruction
+	curFn       *ssa.Function
 
 	curFrame          *frame
 	obligationAssumed map[obKey]bool
@@ -704,10 +706,38 @@ func (fr *frame) runFrame() {
 			}
 		}
 		for _, instr := range instrs {
+			if decSites != nil {
+				in.curInstr, in.curFn = instr, fr.fn
+			}
 			if !fr.visitInstr(instr) {
 				return
 			}
 		}
+	}
+}
+
+// decSites (GOSYM_DECSITES=1): profile of the source positions at which new decisions (forks) are made.
+var decSites = func() map[string]int {
+	if os.Getenv("GOSYM_DECSITES") != "" {
+		return map[string]int{}
+	}
+	return nil
+}()
+
+func (in *Interp) noteDecisionSite() {
+	if decSites == nil || in.curInstr == nil {
+		return
+	}
+	pos := in.prog.Fset.Position(in.curInstr.Pos())
+	decSites[fmt.Sprintf("%s %s:%d", in.curFn, pos.Filename, pos.Line)]++
+}
+
+func dumpDecSites() {
+	if decSites == nil {
+		return
+	}
+	for _, k := range sortedKeys(decSites) {
+		fmt.Fprintf(os.Stderr, "DECSITE %6d %s\n", decSites[k], k)
 	}
 }
 
@@ -1243,6 +1273,7 @@ func (in *Interp) branch(c *Term) bool {
 		return taken
 	}
 	in.run.decisions++
+	in.noteDecisionSite()
 	s.emit(c)
 	d := decision{kind: 'b', asserted: true}
 	mv := in.evalModel(c)
